@@ -45,6 +45,31 @@ def run(pb, req):
         return read_sql(pb, req["path"])
     if op == "sql_read":
         return read_sql(pb, req["path"])
+    if op == "records":
+        # records() / zoom_records() for a list of (chrom, start, end) with None for "not given";
+        # opened by path or from a Python file object
+        src = open(req["path"], "rb") if req.get("file_object") else req["path"]
+        b = pb.open(src)
+        answers = []
+        for (chrom, st, en) in req["queries"]:
+            args = [chrom]
+            kw = {}
+            if st is not None:
+                kw["start"] = st
+            if en is not None:
+                kw["end"] = en
+            try:
+                if req.get("zoom") is not None:
+                    it = b.zoom_records(req["zoom"], *args, **kw)
+                    answers.append({"ok": [[r[0], r[1]] for r in it]})
+                else:
+                    it = b.records(*args, **kw)
+                    answers.append({"ok": [[fl(x) for x in r] for r in it]})
+            except BaseException as e:  # noqa: BLE001
+                answers.append({"err": f"{type(e).__name__}: {e}"})
+        chroms = {k: v for k, v in b.chroms().items()}
+        b.close()
+        return {"answers": answers, "chroms": chroms}
     raise ValueError("unknown op " + op)
 
 
